@@ -20,8 +20,10 @@ func init() {
 			"Listener / ErrorHandler":                                              "stub recorder (each callback is a simulated tick; error-handler policy drawn from the tape)",
 			"the cancelling party":                                                 "simulated task firing at a tape-chosen tick (poll, listener event, error-handler call, pre-cancelled, never)",
 			"goroutine scheduling":                                                 "none: one goroutine; replay is exact by construction",
+			"a second caller":                                                      "simulated: runs to completion inside a listener callback of the first caller (the only point where a parse hands control back), at a tape-chosen event",
 		},
-		rule: "One run = one parser entry point + one generated input (20..40960 tokens, 30% broken for recovering parsers) + one uncancelled reference parse + 4..12 cancelled parses whose firing tick is stratified over polls / tick before / tick after / lookahead polls / error-handler calls / uniform / pre-cancelled / never. " +
+		rule: "One run = one parser entry point + one generated input (20..140000 tokens; flat, deeply nested, phase-swept, or with long runs of reported never-shifted tokens; 40% damaged for recovering parsers) + one uncancelled reference parse + 4..12 cancelled parses whose firing tick is stratified over polls / tick before / tick after / lookahead polls / error-handler calls / uniform / pre-cancelled / never. " +
+			"A third of the runs then reuse one set of parser objects for a cancelled parse followed by a never-cancelled one (of the same input or of a variant sharing offsets with it), and a third interleave two callers with separate parser objects (A descheduled inside its listener at a tape-chosen event, possibly cancelled meanwhile; B runs a whole parse; A resumes). " +
 			"A run is non-trivial when at least one cancellation that fired after the first poll was observed (the parse returned ctx.Err()). distinct_nontrivial counts distinct (entry point, multiset of (firing tick kind, observing poll bucket, outcome)) fingerprints among non-trivial runs.",
 		assumptions: []string{
 			"the parser interacts with its environment only through ctx.Done/Err, the Listener and the ErrorHandler (checked by reading the template: no goroutines, timers or I/O)",
@@ -36,6 +38,8 @@ func init() {
 			"input:valid", "input:invalid",
 			"cancel:Canceled", "cancel:DeadlineExceeded", "cancel:custom-error", "cancel:std-WithCancel",
 			"cancel-at:P", "cancel-at:L", "cancel-at:E", "cancel-at:H", "cancel-at:0",
+			"reuse:parse-after-cancelled-parse", "reuse:next-parse-on-a-different-input",
+			"two-callers:interleaved-after-cancelled-parse", "two-callers:descheduled-caller-cancelled",
 		},
 	}
 }
